@@ -119,11 +119,18 @@ def to_symbolic(R, env, name, kinds):
 
 
 def check_invs(R, c, invs, env, ghosts, when, assume=False):
-    vals = LazyValues(R, env, ghosts)
     for lbl, fn in invs:
+        gs = dict(ghosts)
+        gconsts = []
+        for p in fn.args.args:
+            if p.arg in c.ghost:
+                gv = R.fresh(c.ghost[p.arg], 'g_' + p.arg)
+                gs[p.arg] = gv
+                gconsts.append(gv.e)
+        vals = LazyValues(R, env, gs)
         cl = R.tobool(R.eval_clause(c, fn, vals))
         if assume:
-            R.assume(cl)
+            R.assume(z3.ForAll(gconsts, cl) if gconsts else cl)
         else:
             R.prove(cl, 'inv-%s:%s:%s' % (when, c.qualname, lbl), 'inv')
 
@@ -135,7 +142,11 @@ def exec_while(R, node, env):
         # no invariant: plain unrolling is only possible while the condition is concrete
         n = 0
         while True:
+            n_tr = len(R.trace)
             t = R.truth(R.eval(node.test, env))
+            if len(R.trace) != n_tr:
+                raise OutOfReach('while loop with symbolic condition needs an invariant (loop %s of %s)' % (
+                    o, R.frames[-1].fv.qualname if R.frames else '?'))
             if not isinstance(t, bool):
                 t = z3.simplify(t)
                 if z3.is_true(t):
